@@ -348,7 +348,7 @@ func classify(k *kase, ft cfeat, wantErr bool) string {
 	}
 	switch {
 	case wantErr:
-		return "malformed-directive-accepted" // the reference demands an error
+		return ft.errWhy + "-accepted" // the reference demands an error
 	case ft.beyondLimit:
 		return "width-or-precision-beyond-1e6"
 	case ft.starPrecNeg:
